@@ -118,7 +118,7 @@ def _regen_crctable(ctx):
 # Go → Lean translation of the CURRENT bodies of selected functions of REPO (translators/go2lean, notes/go2lean.md):
 # one regeneration step per unit, `go2lean:<unit>` → lean/FitModel/Generated/Go_<unit>.lean. A construct outside the
 # translator's subset is a broken tie (kind `tool`): the unit's file is replaced by a stub that does not compile.
-GO2LEAN_UNITS = ('crc16', 'basetype', 'proto', 'decoder', 'encoder')
+GO2LEAN_UNITS = ('crc16', 'basetype', 'proto', 'decoder', 'decoderbits', 'encoder')
 
 def _go2lean_step(unit):
     def step(ctx):
